@@ -11,10 +11,10 @@ Why(s, o) ==
        [] w = "dims" -> o.sol = "ok" /\ ~o.dimsOK
        [] w = "sol-missing" -> CanWriteSol(s) /\ o.sol # "ok"
        [] w = "code-class" -> CanWriteSol(s) /\ o.sol = "ok" /\
-                               ~(IF Failing(s) THEN o.code >= 500 /\ o.code <= 999
-                                 ELSE IF s.model = "infeas" THEN (o.code >= 200 /\ o.code <= 299) \/ o.code = Scripted
+                               ~(IF Failing(s) \/ (NamesBad(s) /\ o.code >= 500) THEN o.code >= 500 /\ o.code <= 999
+                                 ELSE IF s.model \in {"infeas", "infeas_nested"} THEN (o.code >= 200 /\ o.code <= 299) \/ o.code = Scripted
                                  ELSE o.code = Scripted)
-       [] w = "no-message" -> CanWriteSol(s) /\ o.sol = "ok" /\ (Failing(s) \/ (s.model = "infeas" /\ o.code # Scripted)) /\ ~o.msgNonEmpty
+       [] w = "no-message" -> CanWriteSol(s) /\ o.sol = "ok" /\ (Failing(s) \/ (s.model \in {"infeas", "infeas_nested"} /\ o.code # Scripted)) /\ ~o.msgNonEmpty
        [] w = "unexpected-sol" -> ~CanWriteSol(s) /\ o.sol # "absent"
        [] w = "exit-status" -> ~CanWriteSol(s) /\ (WantsSol(s) \/ ~HeaderReadable(s)) /\ o.exit = 0
        [] w = "no-diagnostic" -> ~CanWriteSol(s) /\ (IF WantsSol(s) THEN ~o.stderrNonEmpty ELSE Failing(s) /\ ~o.stderrNonEmpty /\ ~o.stdoutNonEmpty)}
